@@ -95,7 +95,7 @@ const RULES: &[&[(&str, &str)]] = &[
     &[], &[], &[("keep-sorted", "asc")], &[("keep-unique", "")], &[("line-count", "<3")], &[("line-pattern", "^[a-z0-9]+$")],
     &[("line-count", ">=1"), ("severity", "warning")], &[("keep-sorted", "desc"), ("severity", "info")],
 ];
-const BODY: &[&str] = &["a", "b", "c", "a", "zz", "b2", "  a", "C", "", "x1"];
+const BODY: &[&str] = &["a", "b", "c", "a", "zz", "b2", "  a", "C", "", "x1", "é1", "жжж", "100"];
 
 fn plan_file(rng: &mut Rng, path: &str, comment: &'static str, names: &mut usize, affects_pool: &[String], allow_nest: bool) -> FilePlan {
     let mut lines: Vec<String> = vec![];
@@ -152,9 +152,13 @@ fn mutate_line(rng: &mut Rng, s: &str) -> String {
     if chars.is_empty() { return "Q".to_string(); }
     let pos = rng.below(chars.len());
     let mut out: String = chars[..pos].iter().collect();
-    match rng.below(3) {
+    match rng.below(6) {
         0 => { out.push('Q'); out.extend(chars[pos..].iter()); }
         1 => { out.extend(chars[pos + 1..].iter()); if out == s { out.push('Q'); } }
+        // the old line had this character twice (`1000` -> `100`): the common prefix and suffix of old and new overlap
+        2 => { out.push(chars[pos]); out.extend(chars[pos..].iter()); }
+        // a multi-byte character replaced by its neighbour (same UTF-8 lead byte: `è` -> `é`); ASCII: the next letter
+        3 => { out.push(char::from_u32(chars[pos] as u32 ^ 1).filter(|c| !c.is_control() && *c != '\n').unwrap_or('Q')); out.extend(chars[pos + 1..].iter()); }
         _ => { out.push(if chars[pos] == 'Q' { 'R' } else { 'Q' }); out.extend(chars[pos + 1..].iter()); }
     }
     if out == s { out.push('Q'); }
